@@ -27,7 +27,8 @@ def configs(tier, seed):
            dict(name="screen r=2 a=1 +1 samples/plates symbolic", h="screen", rows=2, arity=1, extra=1, cycles=2, treat=C, samples=T, plates=T),
            dict(name="screen r=1 a=2 +1 names symbolic", h="screen", rows=1, arity=2, extra=1, cycles=2, treat="fixed-doses", samples=C, plates="one"),
            dict(name="screen r=2 a=2 +0 names symbolic", h="screen", rows=2, arity=2, extra=0, cycles=1, treat="fixed-doses", samples=C, plates="one"),
-           dict(name="space r=2 a=1", h="space", rows=2, arity=1, treat=T, samples=T, plates="one")]
+           dict(name="space r=2 a=1", h="space", rows=2, arity=1, treat=T, samples=T, plates="one"),
+           dict(name="screen after Plate.merge", h="merged", rows=6)]
     if not q:
         out += [dict(name="screen r=3 a=1 +1 treatments symbolic", h="screen", rows=3, arity=1, extra=1, cycles=3, treat=T, samples=C, plates="one"),
                 dict(name="screen r=2 a=1 +2 treatments symbolic", h="screen", rows=2, arity=1, extra=2, cycles=3, treat=T, samples=C, plates="one"),
@@ -39,6 +40,8 @@ def configs(tier, seed):
 
 
 def fixtures(cfg):
+    if cfg["h"] == "merged":
+        return [dict(mi=0, mj=2, **{"ob%d" % r: 0.1 * (r + 1) for r in range(6)}), dict(mi=2, mj=1, **{"ob%d" % r: 0.3 * (r + 1) for r in range(6)})]
     vals = dict(ctrl="", sn0="s1", sn1="", sn2="s1", sn3="x", pn0="p", pn1="qé", pn2="p", pn3="r")
     names = ["a", "bü", "", "a", "bü", "c"]
     doses = [1.0, 2.5, 0.0, 1.0, 0.1, 3.0]
@@ -179,5 +182,37 @@ def h_space(ctx, cfg):
     return 1
 
 
+def h_merged(ctx, cfg):
+    """a screen whose plates were merged in place (Plate.merge) is still a screen: it must round-trip too"""
+    from .common import concrete_screen
+    data = ctx.mod("batchie.data")
+    ctx.f32_visible(True)
+    rows = [("s1", "a", 1.0, "b", 1.0, "c"), ("s1", "a", 2.0, "b", 1.0, "c"), ("s2", "a", 1.0, "b", 1.0, "b"),
+            ("s2", "a", 2.0, "", 0.0, "b"), ("s1", "b", 1.0, "", 0.0, "a"), ("s2", "b", 2.0, "a", 1.0, "a")][:cfg["rows"]]
+    obs = [ctx.real_bits("ob%d" % r) for r in range(len(rows))]
+    s = concrete_screen(ctx, rows, observations=obs, mask=[False] * len(rows))
+    plates = s.plates
+    i = int(ctx.int("mi", 0, len(plates) - 1))
+    j = int(ctx.int("mj", 0, len(plates) - 1))
+    if i == j:
+        ctx.assume(False)
+    plates[i].merge(plates[j])
+    before = _snapshot(s)
+    for k in [k for k in before if k.startswith("plate_mapping")]:
+        del before[k]  # Plate.merge does not refresh the plate mapping; the property speaks of plate names and plate ids
+    cur = s
+    for c in range(2):
+        fn = ctx.tmp("merged_%d.h5" % c)
+        cur.save_h5(fn)
+        cur = data.Screen.load_h5(fn)
+        after = _snapshot(cur)
+        if c == 0:
+            ctx.observe("plates", [after["plate_names"], after["plate_ids"]])
+        for k in [k for k in after if k.startswith("plate_mapping")]:
+            del after[k]
+        _compare(ctx, before, after, "merged screen, cycle %d" % (c + 1))
+    return [i, j]
+
+
 def run(ctx, cfg):
-    return {"screen": h_screen, "space": h_space}[cfg["h"]](ctx, cfg)
+    return {"screen": h_screen, "space": h_space, "merged": h_merged}[cfg["h"]](ctx, cfg)
